@@ -133,6 +133,12 @@ def withSpec01 (j : JSt) (raw : Option Bytes) (outs : List Bytes) (v : List Hist
   let v := if specBad && !trackBad then v ++ [⟨"C01", "the reader of the proved predicate (Spec01) rejects this step"⟩]
            else if trackBad && !specBad then v ++ [⟨"C01", "trace judge and Spec01 disagree on this step"⟩]
            else v
+  -- C10: the figure of an `S iauth` line against the proved reader's count of live instances
+  let c10Bad := outs.any fun l =>
+    (l.take 9) == b "S iauth :" && (match Hist.inUseOf (l.drop 9) with | some n => n != t1.n | none => false)
+  let v := if c10Bad && !(v.any (·.prop == "C10")) then
+             v ++ [⟨"C10", s!"a statistics reply disagrees with the count of live instances ({t1.n}) kept by the proved reader"⟩]
+           else v
   ({ j with t1 := { t1 with ok := true } }, v)
 
 def unhexLines (h : String) : List Bytes :=
